@@ -73,7 +73,8 @@ def make_case(tt, ops, side=None):
         if side and i < len(side) and side[i]:
             out.append(side[i])
             vals.append(V.parse_sexp(side[i].split(" ", 2)[2]))
-    env = V.env_for([V.parse_sexp(tt), V.parse_sexp(Y_TRAIT), V.parse_sexp(Z_TRAIT)], vals, 5)
+    with V.falsy(V.falsy_mode(decls + "|" + ";".join(out))):
+        env = V.env_for([V.parse_sexp(tt), V.parse_sexp(Y_TRAIT), V.parse_sexp(Z_TRAIT)], vals, 5)
     return "a|%s|%s|%s" % (env, decls, ";".join(out))
 
 
@@ -663,6 +664,13 @@ def run_impl(case):
     if kind == "r":
         return run_r(a, b)
     assert kind == "a"
+    mode = V.falsy_mode(a + "|" + b)
+    with V.falsy(mode):
+        out, hits, tags = run_a(env, a, b)
+    return out, hits, list(tags) + ["owner:" + ("truthy", "bool-false", "len-zero")[mode]]
+
+
+def run_a(env, a, b):
     ctx = V.Ctx()
     decls = []
     for f in a.split(";"):
